@@ -8,7 +8,7 @@ Import ListNotations.
 Require Import TV.Base.EP TV.Base.EPSound TV.Base.Amp TV.Model.Lane TV.Spec.Born TV.gen.Gen_instructions TV.gen.Gen_stim_gates
   TV.Model.GateCheck TV.Model.InstrCheck TV.Model.KrausCheck TV.Proofs.GateProofs TV.Proofs.InstrProofs
   TV.Proofs.BitIdx TV.Proofs.CircuitProofs TV.Proofs.CircuitTheorem TV.Proofs.DenseBridge TV.Proofs.KrausSem TV.Proofs.KrausLocal
-  TV.Proofs.KrausTheorem TV.Proofs.KrausGates TV.Proofs.KrausFeedback.
+  TV.Proofs.KrausTheorem TV.Proofs.KrausGates TV.Proofs.KrausFeedback TV.Proofs.KrausNoise2.
 Set Default Timeout 200.
 
 (* ---- finite facts about the regenerated collapse fragments ---- *)
@@ -67,6 +67,12 @@ Proof.
     discriminate Ho.
   - destruct (String.eqb name "pauli_channel_1") eqn:E5; [|discriminate Ho]. apply String.eqb_eq in E5; subst; injection Ho as <-; eexists; split; [right; right; right; right; left; reflexivity|]; cbn -[op_same]; repeat (constructor; [first [apply op_same_refl | exact I]|]); constructor.
 Qed.
+Definition cn2_ops (args : list Q) (qi qj : nat) : option (list (op nat)) :=
+  match args with
+  | [p] => Some (g_depolarize2 qi qj p)
+  | [a1; a2; a3; a4; a5; a6; a7; a8; a9; a10; a11; a12; a13; a14; a15] => Some (g_pauli_channel_2 qi qj a1 a2 a3 a4 a5 a6 a7 a8 a9 a10 a11 a12 a13 a14 a15)
+  | _ => None
+  end.
 Lemma wf_all_same n o o' : Forall2 op_same o o' -> forallb (wf_op n) o = forallb (wf_op n) o'.
 Proof. induction 1 as [|x y l l' Hxy Hl IH]; cbn [forallb]; [reflexivity | rewrite (wf_op_same n x y Hxy), IH; reflexivity]. Qed.
 
@@ -107,7 +113,8 @@ Section KCirc.
   | CR (name : string) (q : nat)                (* r rx ry *)
   | CMp (name : string) (p : Q) (inv : bool) (q : nat)   (* the same measurements with flip probability p > 0 *)
   | CN (name : string) (args : list Q) (q : nat)         (* x_error y_error z_error depolarize1 (one argument), pauli_channel_1 (three) *)
-  | CF (name : string) (r q : nat).                      (* a Pauli on lane q controlled by record bit r: "CX rec q" ... "YCZ q rec" *)
+  | CF (name : string) (r q : nat)                       (* a Pauli on lane q controlled by record bit r: "CX rec q" ... "YCZ q rec" *)
+  | CN2 (args : list Q) (qi qj : nat).                   (* DEPOLARIZE2 (one argument) / PAULI_CHANNEL_2 (fifteen) on lanes qi, qj *)
   Definition cinstr_ops (i : cinstr) : option (list (op nat)) :=
     match i with
     | CG x => gapp_ops x
@@ -116,6 +123,7 @@ Section KCirc.
     | CMp name p inv q => if noisy_p p then match assoc name meas_fns with Some (_, _, g) => Some (g q p inv) | None => None end else None
     | CN name args q => cn_ops name args q
     | CF name r q => match assoc name fb_fns with Some (_, g) => Some (g r q) | None => None end
+    | CN2 args qi qj => cn2_ops args qi qj
     end.
   (* a feedback instruction may only refer to a record bit that exists at that point *)
   Definition cinstr_ok (sk : kst) (i : cinstr) : bool := match i with CF _ r _ => Nat.ltb r (knrec R sk) | _ => true end.
@@ -147,6 +155,9 @@ Section KCirc.
         match assoc name fb_fns with
         | Some (P, _) => if bit (brec b) r then aapp1 (m2f_of (pauli_m P)) q psi else psi
         | None => psi end
+    | CN2 args qi qj =>      (* error bits e0,e1 select the Pauli on qi (Z^e0 X^e1), e2,e3 the Pauli on qj *)
+        aapp1 (m2f_of (spec_noise1_m "pauli_channel_1" (window b (knrec R sk) (knsil R sk) (knerr R sk + 2)))) qj
+          (aapp1 (m2f_of (spec_noise1_m "pauli_channel_1" (window b (knrec R sk) (knsil R sk) (knerr R sk)))) qi psi)
     end.
   Fixpoint cspec (b : bits) (sk : kst) (c : list cinstr) (psi : state) : state :=
     match c with
@@ -164,13 +175,14 @@ Section KCirc.
   Qed.
   Lemma spec_instr_scale b sk i c psi : spec_instr b sk i (scale c psi) = scale c (spec_instr b sk i psi).
   Proof.
-    destruct i as [x | name inv q | name q | name p inv q | name args q | name r q]; cbn [spec_instr].
+    destruct i as [x | name inv q | name q | name p inv q | name args q | name r q | args qi qj]; cbn [spec_instr].
     - apply gapp_doc_scale.
     - destruct (assoc name meas_fns) as [[[basis is_reset] g]|]; [apply (scale_app1 R rO rI radd rmul rsub ropp Rth) | reflexivity].
     - destruct (assoc name reset_fns) as [[basis g]|]; [apply (scale_app1 R rO rI radd rmul rsub ropp Rth) | reflexivity].
     - destruct (assoc name meas_fns) as [[[basis is_reset] g]|]; [apply (scale_app1 R rO rI radd rmul rsub ropp Rth) | reflexivity].
     - apply (scale_app1 R rO rI radd rmul rsub ropp Rth).
     - destruct (assoc name fb_fns) as [[P g]|]; [|reflexivity]. destruct (bit (brec b) r); [apply (scale_app1 R rO rI radd rmul rsub ropp Rth) | reflexivity].
+    - rewrite !(scale_app1 R rO rI radd rmul rsub ropp Rth). reflexivity.
   Qed.
   Lemma cspec_scale b c0 : forall sk c psi, cspec b sk c0 (scale c psi) = scale c (cspec b sk c0 psi).
   Proof.
@@ -178,11 +190,31 @@ Section KCirc.
     destruct (cinstr_ops i); [|reflexivity]. rewrite spec_instr_scale. apply IH.
   Qed.
 
+  Lemma cn_sound name args q o : cn_ops name args q = Some o -> forall sk : kst,
+    exists C, sq2 C /\ forall b t, skel_eq t sk -> exists e : Qc,
+      kfinal (krun b o t) = scale (E e * C) (aapp1 (m2f_of (spec_noise1_m name (window b (knrec R sk) (knsil R sk) (knerr R sk)))) q (kfinal t)).
+  Proof.
+    intros Ho sk.
+      pose proof (cn_ops_row name args q o Ho) as Hrow.
+      destruct Hrow as (g & Hin & Hsm).
+      pose proof noise1_natural as Hn. rewrite Forall_forall in Hn. specialize (Hn _ Hin q). cbn [snd] in Hn.
+      pose proof noise1_static_ok as Hst. rewrite forallb_forall in Hst. specialize (Hst _ Hin). unfold noise1_static in Hst. cbn [snd] in Hst.
+      apply andb_true_iff in Hst. destruct Hst as [Hone Hq].
+      pose proof noise1_at_ok as Hck. rewrite forallb_forall in Hck. specialize (Hck _ Hin). unfold check_noise1_at in Hck.
+      rewrite forallb_forall in Hck. specialize (Hck _ (kind_in (kex R sk q) (kcol R sk q))). cbv beta iota in Hck.
+      apply andb_true_iff in Hck. destruct Hck as [Hag Hfl].
+      destruct (frag_anywhere R rO rI radd rmul rsub ropp Rth E E_add E_0 E_1 half half_2 ta tb tc (g 0%nat)
+                  (spec_noise1_m name) (kex R sk q) (kcol R sk q) Hone Hq Hag Hfl) as (k & Hk).
+      exists (ev (psqrt2pow k)). split; [constructor|]. intros b t Hs. pose proof Hs as Hs'. destruct Hs' as (Kex & Kcol & Knr & Kns & Kne & _).
+      destruct (Hk b t q ltac:(rewrite Kex; reflexivity) ltac:(rewrite Kcol; reflexivity)) as ((e & _ & He) & _).
+      exists (xv e). rewrite (krun_same R rO rI radd rmul ropp E half ta tb tc b _ _ Hsm t), Hn, He, Knr, Kns, Kne. reflexivity.
+  Qed.
+
   (* ---- one instruction, in any context ---- *)
   Theorem instr_sound i o : cinstr_ops i = Some o -> forall sk : kst, kinv R sk -> cinstr_ok sk i = true ->
     exists C, sq2 C /\ forall b t, skel_eq t sk -> exists e : Qc, kfinal (krun b o t) = scale (E e * C) (spec_instr b sk i (kfinal t)).
   Proof.
-    destruct i as [x | name inv q | name q | name p inv q | name args q | name r q]; cbn [cinstr_ops spec_instr cinstr_ok]; intros Ho sk Hkinv Hok.
+    destruct i as [x | name inv q | name q | name p inv q | name args q | name r q | args qi qj]; cbn [cinstr_ops spec_instr cinstr_ok]; intros Ho sk Hkinv Hok.
     - (* gate *)
       destruct (gate_in_context R rO rI radd rmul rsub ropp Rth E E_add E_0 E_1 half half_2 ta tb tc x o Ho) as (e & He).
       exists (uM sk o). split; [apply sq2_uM|]. intros b t Hs. exists (xv e). rewrite (He b t).
@@ -235,23 +267,24 @@ Section KCirc.
       exists (ev (psqrt2pow k)). split; [constructor|]. intros b t Hs. pose proof Hs as Hs'. destruct Hs' as (Kex & Kcol & Knr & Kns & Kne & _).
       destruct (Hk b t q ltac:(rewrite Kex; reflexivity) ltac:(rewrite Kcol; reflexivity)) as ((e & _ & He) & _).
       exists (xv e). rewrite (krun_same R rO rI radd rmul ropp E half ta tb tc b _ _ Hsm t), Hn, He, Knr, Kns, Kne. reflexivity.
-    - (* single-qubit Pauli channel *)
-      pose proof (cn_ops_row name args q o Ho) as Hrow.
-      destruct Hrow as (g & Hin & Hsm).
-      pose proof noise1_natural as Hn. rewrite Forall_forall in Hn. specialize (Hn _ Hin q). cbn [snd] in Hn.
-      pose proof noise1_static_ok as Hst. rewrite forallb_forall in Hst. specialize (Hst _ Hin). unfold noise1_static in Hst. cbn [snd] in Hst.
-      apply andb_true_iff in Hst. destruct Hst as [Hone Hq].
-      pose proof noise1_at_ok as Hck. rewrite forallb_forall in Hck. specialize (Hck _ Hin). unfold check_noise1_at in Hck.
-      rewrite forallb_forall in Hck. specialize (Hck _ (kind_in (kex R sk q) (kcol R sk q))). cbv beta iota in Hck.
-      apply andb_true_iff in Hck. destruct Hck as [Hag Hfl].
-      destruct (frag_anywhere R rO rI radd rmul rsub ropp Rth E E_add E_0 E_1 half half_2 ta tb tc (g 0%nat)
-                  (spec_noise1_m name) (kex R sk q) (kcol R sk q) Hone Hq Hag Hfl) as (k & Hk).
-      exists (ev (psqrt2pow k)). split; [constructor|]. intros b t Hs. pose proof Hs as Hs'. destruct Hs' as (Kex & Kcol & Knr & Kns & Kne & _).
-      destruct (Hk b t q ltac:(rewrite Kex; reflexivity) ltac:(rewrite Kcol; reflexivity)) as ((e & _ & He) & _).
-      exists (xv e). rewrite (krun_same R rO rI radd rmul ropp E half ta tb tc b _ _ Hsm t), Hn, He, Knr, Kns, Kne. reflexivity.
+    - (* single-qubit Pauli channel *) apply (cn_sound name args q o Ho sk).
     - (* feedback *)
       destruct (assoc name fb_fns) as [[P g]|] eqn:Ha; [|discriminate]. injection Ho as <-. apply Nat.ltb_lt in Hok.
       apply (fb_anywhere R rO rI radd rmul rsub ropp Rth E E_add E_0 E_1 half half_2 ta tb tc name P g (assoc_in _ _ _ Ha) r q sk Hkinv Hok).
+    - (* two-qubit Pauli channel = PAULI_CHANNEL_1 on qi, then on qj *)
+      set (o1 := g_pauli_channel_1 qi qp qp qp). set (o2 := g_pauli_channel_1 qj qp qp qp).
+      assert (Hrun : forall b t, krun b o t = krun b o2 (krun b o1 t)).
+      { intros b t. transitivity (krun b (o1 ++ o2) t); [|unfold KrausSem.krun; apply fold_left_app].
+        unfold cn2_ops in Ho. repeat (destruct args as [|? args]; try discriminate Ho); injection Ho as <-;
+          [unfold g_depolarize2|]; apply (pc2_is_two_pc1 R rO rI radd rmul ropp E half ta tb tc). }
+      destruct (cn_sound "pauli_channel_1" [qp; qp; qp] qi o1 eq_refl sk) as (C1 & HC1 & H1).
+      destruct (cn_sound "pauli_channel_1" [qp; qp; qp] qj o2 eq_refl (krun KrausGates.b00 o1 sk)) as (C2 & HC2 & H2).
+      destruct (pc1_counters R rO rI radd rmul ropp E half ta tb tc KrausGates.b00 qi qp qp qp sk) as (N1 & N2 & N3). fold o1 in N1, N2, N3.
+      exists (C1 * C2). split; [apply sq2_mul; assumption|]. intros b t Hs.
+      destruct (H1 b t Hs) as (e1 & He1).
+      destruct (H2 b (krun b o1 t) (skel_run R rO rI radd rmul ropp E half ta tb tc b KrausGates.b00 o1 t sk Hs)) as (e2 & He2).
+      exists (e1 + e2)%Qc. rewrite Hrun, He2, He1, N1, N2, N3.
+      rewrite (scale_app1 R rO rI radd rmul rsub ropp Rth), (scale_scale R rO rI radd rmul rsub ropp Rth), E_add. f_equal. ring.
   Qed.
 
   (* ---- THE composition theorem on amplitude functions ---- *)
@@ -307,10 +340,11 @@ Section KCirc.
     | CG (GA1 _ a) => Nat.ltb a n
     | CG (GA2 _ a c) => Nat.ltb a n && Nat.ltb c n
     | CM _ _ q | CR _ q | CMp _ _ _ q | CN _ _ q | CF _ _ q => Nat.ltb q n
+    | CN2 _ qi qj => Nat.ltb qi n && Nat.ltb qj n
     end.
   Lemma cinstr_wf n i o : cinstr_ops i = Some o -> cinstr_lanes_ok n i = true -> forallb (wf_op n) o = true.
   Proof.
-    destruct i as [[name a | name a c] | name inv q | name q | name p inv q | name args q | name r q]; cbn [cinstr_ops cinstr_lanes_ok gapp_ops]; intros Ho Hl.
+    destruct i as [[name a | name a c] | name inv q | name q | name p inv q | name args q | name r q | args qi qj]; cbn [cinstr_ops cinstr_lanes_ok gapp_ops]; intros Ho Hl.
     - apply Nat.ltb_lt in Hl.
       destruct (assoc name gate_table) as [[fn [|[|ar]]]|] eqn:Ha; try discriminate.
       destruct (doc_of name) as [[[|[|n']] D]|] eqn:Hd; try discriminate.
@@ -362,6 +396,9 @@ Section KCirc.
       apply (forallb_map_imp (one_lane_op 8) (wf_op n)); [intros x Hx; apply (one_lane_wf_at n q 8 Hl x Hx) | exact Hone].
     - apply Nat.ltb_lt in Hl. destruct (assoc name fb_fns) as [[P g]|] eqn:Ha; [|discriminate]. injection Ho as <-.
       pose proof fb_wf as Hw. rewrite Forall_forall in Hw. apply (Hw _ (assoc_in _ _ _ Ha) r q n Hl).
+    - apply andb_true_iff in Hl. destruct Hl as [Li Lj].
+      unfold cn2_ops in Ho. repeat (destruct args as [|? args]; try discriminate Ho); injection Ho as <-;
+        [unfold g_depolarize2|]; unfold g_pauli_channel_2; cbn [app forallb wf_op]; rewrite Li, Lj; reflexivity.
   Qed.
   Lemma ccircuit_wf n c : forall ops, ccircuit_ops c = Some ops -> forallb (cinstr_lanes_ok n) c = true -> forallb (wf_op n) ops = true.
   Proof.
